@@ -126,7 +126,8 @@ def _r1(chk, repo):
 def _r2(chk, repo):
     from ..pattern import statements, unify, norm
     td = repo.cls(f"{PDE}:TimeDependentLinearPDE")
-    sv = repo.method(td, "solve")[1]
+    from .common import canon_keep as _ck2
+    sv = _ck2(repo, td, repo.method(td, "solve")[1], keep={"_solve_linear_system", "assemble_step", "assemble"})     # per-method stepping helpers inlined
     g = CFG(sv)
     inst = f"{td.qual}.solve"
     S = statements(sv, nested=True)
@@ -228,7 +229,8 @@ def _r3(chk, repo):
             raise AnchorError(f"PDE.{name} setter not found")
         v = func_params(p.setter)[1]
         from .common import method_effects as _me2
-        eff = _me2(repo, base, p.setter)
+        from .common import canon_keep as _ck
+        eff = _me2(repo, base, p.setter, view=_ck(repo, base, p.setter, keep={"_compare_grid"}))      # a shared "compare, then store" helper is inlined
         eff = [e for e in eff if e["kind"] != "raise"]
         # on every path the flag is recomputed from the value that is stored (the given one, or its documented default) and the other grid
         ok = bool(eff) and all(e["kind"] in ("fall", "return") and e["stores"].get(f"self._{name}") in (v, other)
